@@ -72,6 +72,8 @@ THEOREMS = [
     "C08_print_sections: display_document = root prefix ++ (per section in printing order: header fragment ++ entry fragments) ++ suffix ++ trailing",
     "C08_line_printed / C08_header_printed: every line fragment of a tree occurs in its printed text; every header fragment too unless the table is implicit without lines",
     "C08_verbatim_text / C08_history_verbatim_text: the text printed after an edit contains, byte for byte, the key/value line of every untouched entry",
+    "C08_step_tbl_wf / C08_step_wf_text / C08_history_wf_text: every operation (all 16 kinds) preserves Spec/WF.v (tbl_wf proved per operation under the decidable `wf_side`; limits and section order under the boolean checks of the result `lim_side` / `order_side`, proved sound); C08_order_free: array operations and fmt never break order_ok",
+    "C08_text_roundtrip: GIVEN the WF backbone's print/parse theorem (explicit premise), the text printed after any history meeting its side conditions parses to abs t' = spec_apply_all ops (abs t)",
     "NOT proved (checked by the oracle on the implementation): relative order of the fragments across sections as one theorem; printed text is valid TOML and re-parses to abs t' (C06 round trip)",
 ]
 RULE = ("(1) gen_toml documents (random layout, comments and whitespace in every decor slot) x random operation lists "
